@@ -53,6 +53,7 @@ DEFAULT_PROFILE = dict(
     p_dynamic=15,
     p_delay=15,
     p_cumulative_in_select=8,  # a selection may list a cumulative worker (test_cumulative_select_worker_1)
+    p_double_require=0,  # % of selections that list a worker the task already requires directly
     p_group_precedence=0,  # % of specs with a TaskPrecedence whose operand(s) are task groups ("GroupPrecedence")
 )
 
@@ -217,6 +218,11 @@ def gen_resources(g, spec, H):
                 spec["assign"].append({"task": t["name"], "res": "K1"})
             else:
                 ws = g.subset(free, 2, 3)
+                direct = [a_["res"] for a_ in spec["assign"] if a_["task"] == t["name"] and a_["res"] in wnames]
+                if direct and g.chance(g.p.get("p_double_require", 0)):
+                    # a worker the task already requires is also listed as an alternative: the library refuses a worker
+                    # required twice by one task (ValueError); if it accepts, the direct requirement still binds
+                    ws = [g.pick(direct)] + ws[:2]
                 if spec["cumulative"] and "K1" not in used and g.chance(g.p.get("p_cumulative_in_select", 0)):
                     ws = ws[:2] + ["K1"]  # a selection may list a cumulative worker (test_cumulative_select_worker_1)
                 used.update(ws)
@@ -539,10 +545,10 @@ def gen_arith(g, spec, H):
     names = [t["name"] for t in spec["tasks"]]
     t = g.pick(names)
     e = {"op": "var", "task": t, "attr": g.pick(["start", "end"])}
-    k = g.int(0, 3)
+    k = g.pick(g.p["arith_kinds"]) if g.p.get("arith_kinds") else g.int(0, 3)
     if k == 1 and len(names) >= 2:
         t2 = g.pick([n for n in names if n != t])
-        e = {"op": g.pick(["+", "-"]), "a": e, "b": {"op": "var", "task": t2, "attr": g.pick(["start", "end"])}}
+        e = {"op": g.pick(g.p.get("arith_ops") or ["+", "-"]), "a": e, "b": {"op": "var", "task": t2, "attr": g.pick(["start", "end"])}}
     elif k == 2:
         e = {"op": "*", "a": {"op": "const", "v": g.int(1, 3)}, "b": e}
     elif k == 3:
